@@ -208,6 +208,10 @@ def run(ctx):
                     kwargs["connected"] = False
                     kwargs["unconnected_send"] = transport == "unconnected_send"
                     rp_form = rng.choice(["true", "false", "str", "list", "bytes", "default"])
+                    # unconnected_send=True together with route_path=False / b"" / [] is left out: "wrap it in an Unconnected Send" and
+                    # "use no route" contradict each other (the service exists to carry a route; the pinned tree emits the wrapper without
+                    # the route-size field, which no device accepts) - what such a call should do is not stated anywhere: don't-care
+                    us_empty = False
                     if transport == "unconnected_send" and rp_form == "false":
                         rp_form = "true"
                     tgt_route = tuple(hops) if rng.random() < 0.6 else rng.choice(list(routes))
@@ -217,7 +221,7 @@ def run(ctx):
                     elif rp_form == "default":
                         tgt_route = tuple(hops)
                     elif rp_form == "false":
-                        kwargs["route_path"] = False
+                        kwargs["route_path"] = rng.choice([False, b"", []]) if us_empty else False
                         tgt_route = None
                     elif rp_form == "str":
                         if not tgt_route:
@@ -234,7 +238,9 @@ def run(ctx):
                             kwargs["route_path"] = [p.PortSegment(pp, ll) for pp, ll in tgt_route]
                     elif rp_form == "bytes":
                         kwargs["route_path"] = refpath.route_bytes(list(tgt_route), pad_after_size=True)
-                    if transport == "unconnected_send":
+                    if us_empty:
+                        exp_route, exp_dev = (), front
+                    elif transport == "unconnected_send":
                         exp_route, exp_dev = tgt_route, routes[tgt_route]
                     else:
                         exp_route, exp_dev = (), front
